@@ -143,7 +143,7 @@ func c14RunFrames(c *h.Ctx, bucket string, k c14Case, cuts bool) {
 	stream := h.UnHex(parts[0])
 	spec := kvLine(parts[1])
 	model := kvLine(parts[2])
-	rbuf := []int{0, 125, 256, 1024}[c.R.Intn(4)]
+	rbuf := []int{0, 125, 256, 1024, 1, 13, 14, 15, 64, 100, 124, 126, 4096}[c.R.Intn(13)] // any read buffer size the caller may configure
 	impl := wsImplRead(c, k.isServer, k.deflate, k.limit, rbuf, stream, h.Trunc(in, 600))
 	tin := h.Trunc(in, 600)
 
@@ -539,6 +539,25 @@ func c14(c *h.Ctx) {
 		c.Hold(rep == "0 0" || rep == "1 1", "closecode.spec_eq_table", fmt.Sprint(code), rep, "equal")
 	}
 	c.Case("closecodes/0..5100", "sweep", true)
+	// the same sweep on the implementation: a Close frame with that status and no reason, in both roles (every code
+	// around the assigned ranges at the quick budget, every code 0..5100 at the thorough one)
+	for code := 0; code <= 5100; code++ {
+		near := (code >= 990 && code <= 1030) || (code >= 2990 && code <= 3010) || (code >= 4990 && code <= 5010) || code < 3
+		if !near && !c.Thorough() && code%97 != int(c.Seed%97) {
+			continue
+		}
+		for _, isServer := range []bool{false, true} {
+			key := "-"
+			if isServer {
+				key = "00000000"
+			}
+			body := h.Hex([]byte{byte(code >> 8), byte(code)})
+			// against the conformant receiver (Spec.recv) and the model: a text message, then the Close frame
+			c14RunFrames(c, "closecode-sweep", c14Case{isServer, false, 0, []wsFrame{
+				{Fin: true, Op: 1, Masked: isServer, Key: key, Form: 0, Len: 2, Payload: "6869"},
+				{Fin: true, Op: 8, Masked: isServer, Key: key, Form: 0, Len: 2, Payload: body}}}, false)
+		}
+	}
 	nutf := c.N(3000, 65536+256)
 	for i := 0; i < nutf; i++ {
 		var b []byte
